@@ -540,6 +540,11 @@ func genSingle(c *Case, r *simrt.Rand, cfg genCfg) {
 			}
 		}
 	}
+	if c.Opts.Backing != "mem" && (c.Prop == "C20" || c.Prop == "C11" || c.Prop == "C04") && r.Chance(0.7) {
+		// end with a drain: whatever was executed must reach the lower level
+		// once the background tasks have nothing left to do
+		c.Prog = append(c.Prog, Op{Kind: "drain"})
+	}
 	if c.Flags["finalDrain"] {
 		c.Prog = append(c.Prog, Op{Kind: "stopFaults"}, Op{Kind: "drain"}, Op{Kind: "verify"})
 	}
